@@ -226,7 +226,7 @@ func checkTouched(c *ev.Collector, before, after provSnap, minStake map[string]*
 
 type c07Acts struct {
 	*stakeActs
-	unstakeByProviderOK, moveOK, modifyOK, froze int
+	unstakeByProviderOK, moveOK, modifyOK, froze, proppedUp int
 }
 
 // unstake: by the vault, or by the provider address (only meaningful when they differ).
@@ -341,7 +341,7 @@ func (a *c07Acts) moveStake(t *rapid.T) {
 
 func TestC07(t *testing.T) {
 	c := ev.For("C07")
-	c.SetRule("rapid state machine on a generated world (2-5 providers, vault equal to or different from the provider, on 2-3 chains; 1-4 delegators plus vaults and validators as delegators): stake on a new chain / modify stake and commission / move-stake / unstake by vault / unstake by the provider address / dualstaking delegate, redelegate (empty provider included), unbond / validator-side delegate, undelegate, redelegate, cancel-unbond, hours-days advancing; oracle I1-I3 after every step and block, I4-I5 after every transaction for the providers whose stakes or delegations it changed; non-trivial = a transaction changed a provider staked on >=2 chains that has >=1 non-vault delegator; distinct = distinct histories")
+	c.SetRule("rapid state machine on a generated world (2-5 providers, vault equal to or different from the provider, on 2-3 chains; 1-4 delegators plus vaults and validators as delegators): stake on a new chain / modify stake and commission / move-stake / unstake by vault / unstake by the provider address / freeze, unfreeze / a directed scenario with drawn parameters (self stake lowered below the spec minimum, a delegator adds the missing amount, unfreeze, the delegator unbonds a drawn part) / dualstaking delegate, redelegate (empty provider included), unbond / validator-side delegate, undelegate, redelegate, cancel-unbond, hours-days advancing; oracle I1-I3 after every step and block, I4-I5 after every transaction for the providers whose stakes or delegations it changed; non-trivial = a transaction changed a provider staked on >=2 chains that has >=1 non-vault delegator; distinct = distinct histories")
 	c.Assume("transactions run atomically (cache context + bank snapshot) as under BaseApp",
 		"no validator slashes in this alphabet (the slash path is C06's subject; its known finding also leaves entries and vault delegation apart)",
 		"spec minimum stakes are constant during a history")
@@ -397,7 +397,65 @@ func propC07(rt *rapid.T, t *testing.T, c *ev.Collector) {
 	w.C.BlockHook = func() {
 		check(fmt.Sprintf("after the block boundary reaching height %d", w.C.Height()), false)
 	}
+	// proppedUp (directed, drawn parameters): an entry whose self stake is below the spec minimum
+	// and that is active only thanks to delegations (self stake lowered below the minimum => frozen,
+	// a delegator adds the missing amount, the provider unfreezes); then the delegator takes a drawn
+	// part back. Every transaction is followed by the oracle.
+	proppedUp := func(rt *rapid.T) {
+		p := pick(rt, "provider", w.Providers)
+		chains := w.ChainsOf(p)
+		if len(chains) == 0 {
+			rt.Skip("not staked")
+		}
+		ch := pick(rt, "chain", chains)
+		ks := w.C.TS.Keepers
+		entry, found := ks.Epochstorage.GetStakeEntryCurrent(w.C.TS.Ctx, ch, p.Addr())
+		md, err := ks.Epochstorage.GetMetadata(w.C.TS.Ctx, p.Addr())
+		if !found || err != nil {
+			rt.Skip("no entry")
+		}
+		min := w.SpecByIndex(ch).MinStakeProvider.Amount.Int64()
+		below := int64(rapid.SampledFrom([]int{1, 10, 400}).Draw(rt, "below"))
+		v := pick(rt, "validator", w.Validators)
+		step := func(what string) { check("after "+what+" of the propped-up scenario", true) }
+		if w.StakeProvider(p, ch, min-below, entry.Geolocation, entry.Endpoints, md.DelegateCommission, v) != nil {
+			step("the stake decrease")
+			return
+		}
+		step("the stake decrease")
+		d := pick(rt, "delegator", w.Delegators)
+		// the delegation is spread over the provider's chains in proportion to the self stakes
+		amount := (below + int64(rapid.SampledFrom([]int{0, 1, 50}).Draw(rt, "spare"))) * int64(len(chains)) * int64(rapid.SampledFrom([]int{1, 2, 40}).Draw(rt, "factor"))
+		dmsg := &dualstakingtypes.MsgDelegate{Creator: d.Addr.String(), Validator: valAddrOf(v).String(), Provider: p.Addr(), ChainID: "", Amount: coin(w, amount)}
+		err = anteTx(w, dmsg, fmt.Sprintf("dualDelegate*(%s->%s,%d)", short(d.Addr.String()), p.Name, amount), dmsg.ValidateBasic, func() error {
+			_, err := w.C.TS.Servers.DualstakingServer.Delegate(w.C.TS.GoCtx, dmsg)
+			return err
+		})
+		step("the delegation")
+		if err != nil {
+			return
+		}
+		umsg := &pairingtypes.MsgUnfreezeProvider{Creator: p.Addr(), ChainIds: []string{ch}}
+		err = w.C.Tx(fmt.Sprintf("unfreeze*(%s,%s)", p.Name, ch), umsg.ValidateBasic, func() error {
+			_, err := w.C.TS.Servers.PairingServer.UnfreezeProvider(w.C.TS.GoCtx, umsg)
+			return err
+		})
+		step("the unfreeze")
+		if err != nil {
+			return
+		}
+		a.proppedUp++
+		back := drawPart(rt, amount)
+		bmsg := &dualstakingtypes.MsgUnbond{Creator: d.Addr.String(), Validator: valAddrOf(v).String(), Provider: p.Addr(), Amount: coin(w, back)}
+		_ = anteTx(w, bmsg, fmt.Sprintf("dualUnbond*(%s:%s,%d of %d)", short(d.Addr.String()), p.Name, back, amount), bmsg.ValidateBasic, func() error {
+			_, err := w.C.TS.Servers.DualstakingServer.Unbond(w.C.TS.GoCtx, bmsg)
+			return err
+		})
+		step("the delegator's unbond")
+	}
 	acts := map[string]func(*rapid.T){
+		"proppedUp":      proppedUp,
+		"freeze":         withAnte(w, w.ActFreeze),
 		"stakeNewChain":  withAnte(w, w.ActStakeNewChain),
 		"modifyStake":    withAnte(w, a.modifyStake),
 		"modifyStake2":   withAnte(w, a.modifyStake),
@@ -440,6 +498,9 @@ func propC07(rt *rapid.T, t *testing.T, c *ev.Collector) {
 	}
 	if a.froze > 0 {
 		classes = append(classes, "entry-frozen-by-a-change")
+	}
+	if a.proppedUp > 0 {
+		classes = append(classes, "active-entry-with-self-stake-below-minimum-then-delegator-unbond")
 	}
 	if w.C.Halt != "" {
 		classes = append(classes, "halted")
